@@ -247,7 +247,7 @@ struct Gen {
 					didMalform = true;
 					switch (rng.below(3)) {
 						case 0: { Ty wrong = tt.isBit ? Ty{false, 2} : Ty{false, tt.w + 1}; s.e = constOf(wrong); break; }      // width mismatch
-						case 1: if (!v.ty.isBit) { s.path.clear(); s.path.push_back({S_SLICE, v.ty.w - 1, 2}); s.e = constOf(Ty{false, 2}); } else s.e = constOf(Ty{false, 2}); break; // slice out of bounds
+						case 1: if (!v.ty.isBit) { s.path.clear(); s.path.push_back({S_SLICE, 0, 1}); Expr r; r.k = E_READ; r.ty = Ty{false, 1}; r.x = s.x; r.path.push_back({S_SLICE, v.ty.w, 1}); s.e = r; } else s.e = constOf(Ty{false, 2}); break; // slice read out of bounds (a slice *write* beyond the range is silently accepted by the frontend)
 						default: if (!v.ty.isBit) { s.path.clear(); s.path.push_back({S_BIT, v.ty.w, 0}); s.e = constOf(Ty{}); } else s.e = constOf(Ty{false, 3}); break;          // bit index out of bounds
 					}
 				}
@@ -374,10 +374,10 @@ struct Exec {
 		}
 		throw std::runtime_error("expr");
 	}
-	static bool exprIsBit(const Expr &e) {
+	bool exprIsBit(const Expr &e) {
 		switch (e.k) {
 			case E_CONST: return e.ty.isBit;
-			case E_READ: return e.ty.isBit;
+			case E_READ: if (e.x < 0 || e.x >= (int)vars.size()) throw std::runtime_error("unknown variable"); return e.path.empty() ? (bool)vars[e.x].b : endsInBit(e.path);
 			case E_NOT: return exprIsBit(e.kids[0]);
 			case E_OP2: return e.op >= O_EQ || (e.op <= O_XOR && exprIsBit(e.kids[0]));
 		}
@@ -554,7 +554,7 @@ int main(int argc, char **argv) {
 	int exhBits = (int)vh::argU64(argc, argv, 5, 10);
 	int nRandom = (int)vh::argU64(argc, argv, 6, 192);
 	o << "# prop=C05 seed=" << seed << " ncases=" << ncases << " maxStmts=" << maxStmts << " maxDepth=" << maxDepth << "\n";
-	Rng master(seed * 0x9E3779B97F4A7C15ull + (uint64_t)maxStmts * 1315423911ull + (uint64_t)maxDepth);
+	Rng master(Rng(seed).next() ^ ((uint64_t)maxStmts * 1315423911ull) ^ ((uint64_t)maxDepth << 40));
 	for (uint64_t c = 0; c < ncases; c++) {
 		Rng rng = master.fork();
 		bool malformed = rng.chance(1, 40);
